@@ -69,6 +69,10 @@ pub fn all_decls() -> Vec<Decl> {
 #[derive(Serialize, Deserialize)]
 struct Case {
     decls: Vec<Decl>,
+    /// colour index of each declaration (default: its position); a repeated index makes two
+    /// declarations textually identical when their kinds are equal
+    #[serde(default)]
+    colours: Vec<usize>,
     prop: String,
     /// same-origin declarations in separate sheets (two add_css calls / two <style> elements)
     split: bool,
@@ -97,14 +101,15 @@ fn check_decls(c: &Case, cx: &mut Cx) {
     let mut user: Vec<String> = vec![];
     let mut author: Vec<String> = vec![];
     let mut inline = String::new();
+    let colour = |k: usize| c.colours.get(k).copied().unwrap_or(k);
     for (k, d) in c.decls.iter().enumerate() {
         let imp = if d.important { " !important" } else { "" };
-        let rule = format!("{} {{ {}: {}{}; }}", SELS[d.sel].0, c.prop, COLS[k], imp);
+        let rule = format!("{} {{ {}: {}{}; }}", SELS[d.sel].0, c.prop, COLS[colour(k)], imp);
         match d.origin {
             Origin::Agent => agent.push(rule),
             Origin::User => user.push(rule),
             Origin::Author => author.push(rule),
-            Origin::Inline => inline += &format!("{}: {}{};", c.prop, COLS[k], imp),
+            Origin::Inline => inline += &format!("{}: {}{};", c.prop, COLS[colour(k)], imp),
         }
     }
     let sheets = |v: &Vec<String>| -> Vec<String> {
@@ -131,7 +136,7 @@ fn check_decls(c: &Case, cx: &mut Cx) {
             best = k;
         }
     }
-    let exp = dbg_colour(what, COLS[best]);
+    let exp = dbg_colour(what, COLS[colour(best)]);
     let r = cx.render_lines(html.as_bytes(), 20, &cfg);
     cx.state(c.decls.len() as u64);
     let distinct_ranks = c.decls.iter().enumerate().map(|(k, d)| {
@@ -236,7 +241,11 @@ impl Scope for S {
             let decls: Vec<Decl> = idx.iter().map(|&i| self.decls[i]).collect();
             for prop in ["color", "background-color"] {
                 for split in [false, true] {
-                    check_decls(&Case { decls: decls.clone(), prop: prop.to_string(), split }, cx);
+                    check_decls(&Case { decls: decls.clone(), colours: vec![], prop: prop.to_string(), split }, cx);
+                    // the same declaration text repeated after a competing one: A B A
+                    if decls.len() == 3 {
+                        check_decls(&Case { decls: decls.clone(), colours: vec![0, 1, 0], prop: prop.to_string(), split }, cx);
+                    }
                 }
             }
         } else {
